@@ -77,7 +77,21 @@ pub fn run(ctx: &mut Ctx) {
             ctx.budget_s = b;
             lane_history(ctx);
         }
-        "C01" | "C05" | "C07" | "C15" => lane_history(ctx),
+        "C01" => {
+            let b = ctx.budget_s;
+            ctx.budget_s = b * 0.2;
+            crate::c06::lane_bigpages(ctx);
+            ctx.budget_s = b;
+            lane_history(ctx);
+        }
+        "C15" => {
+            let b = ctx.budget_s;
+            ctx.budget_s = b * 0.3;
+            crate::fees::lane_bigfees(ctx);
+            ctx.budget_s = b;
+            lane_history(ctx);
+        }
+        "C05" | "C07" => lane_history(ctx),
         "C20" => {
             let b = ctx.budget_s;
             ctx.budget_s = b * 0.7;
@@ -85,7 +99,13 @@ pub fn run(ctx: &mut Ctx) {
             ctx.budget_s = b;
             crate::c14::lane_gate(ctx);
         }
-        "C06" => crate::c06::lane_pages(ctx),
+        "C06" => {
+            let b = ctx.budget_s;
+            ctx.budget_s = b * 0.25;
+            crate::c06::lane_bigpages(ctx);
+            ctx.budget_s = b;
+            crate::c06::lane_pages(ctx);
+        }
         "C10" => crate::c10::lane_admit(ctx),
         "C14" => crate::c14::lane_gate(ctx),
         "C16" => {
